@@ -574,6 +574,9 @@ pub struct Client {
     pub inner: Option<(String, usize, bool)>,
     /// the driver was gone when the current call started
     pub dead_at_start: bool,
+    /// the shared ID counter right after the current call's first poll (the ID it was given,
+    /// if it allocated one): hidden in the call's future otherwise
+    pub id_at_start: i32,
 }
 
 #[derive(Clone, Debug, Default)]
@@ -645,6 +648,7 @@ impl World {
                 out_mark: 0,
                 inner: None,
                 dead_at_start: false,
+                id_at_start: 0,
             })
             .collect();
         let mut server = Server::default();
@@ -916,6 +920,7 @@ impl World {
             || matches!(&call, Call::Start { own_paging, chain, .. } if !(*own_paging && matches!(chain, Chain::Paged(_) | Chain::EntriesPaged(_) | Chain::PagedEntries(_))));
         self.clients[i].task = Some(Task::new(run_call(kit, call.clone(), ab_id)));
         self.poll_client(i);
+        self.clients[i].id_at_start = self.probe.as_ref().map_or(0, |p| p.verif_msgmap().0);
         if self.scn.oracles.ids && allocates {
             if let (Some((last, inuse)), Some(p)) = (before, self.probe.as_ref()) {
                 let (last2, inuse2) = p.verif_msgmap();
@@ -1569,7 +1574,7 @@ impl World {
                         self.judge_res(i, marker, &plan, r, &o2, false);
                     }
                     Ret::Err(k, m) => {
-                        if k != "PANIC" && k != "NoStream" && !faulted {
+                        if k != "PANIC" && k != "NoStream" && !faulted && !self.server.intermediate_for.contains(marker) {
                             self.v(&format!("call:unexpected-error:{}", k), format!("client {} {} failed without any fault: {}", i, obs.call, m));
                         }
                     }
@@ -1818,7 +1823,10 @@ impl World {
                     let routed = self.routed_frames(&sm.marker).min(script.len());
                     self.clients[i].sm.refs = script[..routed].iter().filter(|x| x.0 == ItemKind::R).flat_map(|x| x.1.split(',').map(|u| u.to_string()).collect::<Vec<_>>()).collect();
                 }
-                if k != "Timeout" && k != "PANIC" && sm.state == "Active" && self.scn.oracles.term && !self.abandoned_marker(&sm.marker) {
+                // (paged chains: the routed frames include every page's SearchResultDone, which is
+                // never handed out as an item, so the count says nothing there)
+                let paged_chain = matches!(sm.chain, Some(Chain::Paged(_)) | Some(Chain::EntriesPaged(_)) | Some(Chain::PagedEntries(_)));
+                if k != "Timeout" && k != "PANIC" && sm.state == "Active" && self.scn.oracles.term && !paged_chain && !self.abandoned_marker(&sm.marker) {
                     let routed = self.routed_frames(&sm.marker);
                     if routed > sm.pos {
                         self.v(
@@ -2159,7 +2167,7 @@ impl World {
                 if c.task.is_some() && self.cur_timeout(c).is_some() { c.last_poll } else { 0 }
             );
             if c.task.is_some() {
-                let _ = write!(s, "om{}|d{}|", c.out_mark, c.dead_at_start);
+                let _ = write!(s, "om{}|d{}|id{}|", c.out_mark, c.dead_at_start, c.id_at_start);
             }
             let _ = write!(s, "in{:?}|", c.inner);
             for o in &c.log {
